@@ -129,7 +129,11 @@ func (e *Explorer) handleViolations(x *Exec) {
 			}
 			if !found || y.LogH != x.LogH {
 				ok = false
-				e.ToolErrs = append(e.ToolErrs, fmt.Sprintf("violation %s did not reproduce on replay (logH %x vs %x, found=%t) choices=%v", k, x.LogH, y.LogH, found, x.Choices))
+				var sigs []string
+				for _, v2 := range y.Viol {
+					sigs = append(sigs, v2.Prop+"|"+v2.Sig)
+				}
+				e.ToolErrs = append(e.ToolErrs, fmt.Sprintf("violation %s did not reproduce on replay (logH %x vs %x, found=%t, replay had %v, steps %d vs %d, outcome %q vs %q, detail %s) choices=%s", k, x.LogH, y.LogH, found, sigs, x.Steps, y.Steps, x.Outcome, y.Outcome, v.Detail, rle(x.Choices)))
 				break
 			}
 		}
@@ -144,6 +148,24 @@ func (e *Explorer) handleViolations(x *Exec) {
 		e.Viols[k] = &FoundViolation{Prop: v.Prop, Sig: v.Sig, Detail: v.Detail, Scenario: e.scn.Name,
 			Choices: trimChoices(x.Choices), Labels: compactLabels(x), Cost: cost.String(), Trace: tr.Trace, Count: 1}
 	}
+}
+
+// rle renders a choice list compactly: "0x37 2 0x5 1".
+func rle(c []int) string {
+	var b strings.Builder
+	for i := 0; i < len(c); {
+		j := i
+		for j < len(c) && c[j] == c[i] {
+			j++
+		}
+		if j-i > 1 {
+			fmt.Fprintf(&b, "%dx%d ", c[i], j-i)
+		} else {
+			fmt.Fprintf(&b, "%d ", c[i])
+		}
+		i = j
+	}
+	return b.String()
 }
 
 func trimChoices(c []int) []int {
